@@ -2,7 +2,14 @@
 
 Tie: correspondence between Model/Regex.lean + Model/Pattern.lean (driver ops match/sw/nfa)
 and codelimit.common.gsm.matcher on the same (pattern, word) pairs.
-Oracle (only decides when something is broken): reference semantics by derivatives."""
+Oracle (only decides when something is broken): reference semantics by derivatives.
+
+Besides the tree streams (model against code on new objects per case) the OBJECT streams of obj_streams.py run the
+real engine against the reference semantics on what a tree does not show: operator objects used at several places
+(within a pattern and across the patterns of a process), every call repeated on the same objects, alphabets whose
+items are words / tuples / other values with one-item operands written bare or as lists, in-place edits of the
+expression list between calls, and size ladders (sequence length, items of the list, operator nesting; long inputs
+are judged by a second reference, the position automaton of gen/rx.py)."""
 import os
 import sys
 
@@ -10,6 +17,7 @@ sys.path.insert(0, os.path.dirname(os.path.dirname(os.path.abspath(__file__))))
 import common
 from gen import rx
 import engine_real
+import obj_streams
 
 ID = "C13"
 TRUSTED = [
@@ -61,10 +69,33 @@ def biased_word(rnd, r, n):
     return w
 
 
+_POSREF = {}
+
+
+def ref(r, w):
+    """-> (in_lang, shortest_prefix) by derivatives; by the position automaton for long inputs"""
+    if len(w) <= 40 and rx.node_count(r) <= 40:
+        return rx.in_lang(r, w), rx.shortest_prefix(r, w)
+    if r not in _POSREF:
+        if len(_POSREF) > 64:
+            _POSREF.clear()
+        _POSREF[r] = rx.PosRef(r)
+    return _POSREF[r].in_lang(w), _POSREF[r].shortest_prefix(w)
+
+
 def oracle(op, r, w, reply):
     """does the real engine's reply satisfy the property on this input?"""
     if reply.startswith("err"):
         return False
+    if len(w) > 40 or rx.node_count(r) > 40:
+        inl, sp = ref(r, w)
+        if op == "match":
+            return reply == ("ok %d" % len(w) if inl else "ok none")
+        if op == "nfa":
+            return (reply == "ok T") == inl
+        if op == "sw":
+            return reply == ("ok none" if sp is None else "ok %d" % sp)
+        return True
     if op == "match":
         return (reply != "ok none") == rx.in_lang(r, w) and (reply == "ok none" or reply == "ok %d" % len(w))
     if op == "nfa":
@@ -73,6 +104,64 @@ def oracle(op, r, w, reply):
         k = rx.shortest_prefix(r, w)
         return reply == ("ok none" if k is None else "ok %d" % k)
     return True
+
+
+def bad_of(op, r, w, reply):
+    if oracle(op, r, w, reply):
+        return []
+    inl, sp = ref(r, w)
+    return [("semantics", "reference semantics: in_lang=%s shortest_prefix=%s" % (inl, sp))]
+
+
+def object_histories(ctx):
+    """the pattern as a Python OBJECT (see obj_streams): sessions with shared operator objects and repeated
+    calls, alphabets of words / tuples with bare operands, in-place edits between calls, size ladders"""
+    rnd = ctx.rng("objects")
+    ws = list(rx.words((1, 2, 3), 3))
+    hs = obj_streams.sessions(rx.up_to(ctx.pick(4, 5)), ws, OPS, rnd)
+    hs += obj_streams.variants(rx.up_to(ctx.pick(3, 4)), ws, OPS)
+    hs += obj_streams.edits(rnd, ctx.pick(400, 6000), OPS)
+    hs += obj_streams.ladders(rnd, OPS, lengths=ctx.pick((100, 1000, 10000), (100, 1000, 10000, 100000, 1000000)),
+                              widths=ctx.pick((10, 100, 1000), (10, 100, 1000, 10000)), depths=(10, 30, 100),
+                              per_rung=ctx.pick(3, 6))
+    rule = ("OBJECT streams (real engine against the reference semantics of the tree): sessions = all trees of size <= %d x all words of length <= 3, "
+            "one process per 30 patterns with structurally equal operator sub-trees being one Python object within and across patterns, in "
+            "enumeration order and shuffled, every call repeated on the same objects; variants = all trees of size <= %d over the alphabets %s "
+            "with one-item operands written bare and as lists; edits = %d random histories of 2-4 patterns on ONE list object edited in place "
+            "(slice / pop+append / pop(0)+insert / clear+extend), random alphabet / spelling / sharing; ladders = sequence length %s, items in "
+            "the pattern list %s, operator nesting 10, 30, 100 (deeper: Python recursion in the engine's construction)"
+            % (ctx.pick(4, 5), ctx.pick(3, 4), ", ".join(rx.ALPHABETS), ctx.pick(400, 6000), ctx.pick("10^2..10^4", "10^2..10^6"), ctx.pick("10..10^3", "10..10^4")))
+    return hs, rule
+
+
+def run_objects(ctx):
+    hs, rule = object_histories(ctx)
+    replies = engine_real.run_histories(hs)
+    dist = {}
+    evals = 0
+    nontrivial = set()
+    for h, rs in zip(hs, replies):
+        key = h["kind"] + ("/%s" % h["rung"] if "rung" in h else "")
+        n = sum(len(x) for x in rs)
+        dist[key] = dist.get(key, 0) + n
+        evals += n
+        for st, rr in zip(h["steps"], rs):
+            for (op, w), rep in zip(st["calls"], rr):
+                if rep not in ("ok none", "ok F") and not rep.startswith("err"):
+                    nontrivial.add((h["kind"], h["alphabet"], h["spelling"], op, rx.ser(engine_real._tup(st["ast"])) if rx.node_count(engine_real._tup(st["ast"])) < 40 else id(st), tuple(w) if len(w) < 40 else len(w)))
+    fails = []
+    seen = set()
+    for (hi, i, j, rep, kind, detail) in obj_streams.judge(hs, replies, bad_of):
+        if (hi, i) in seen or len(fails) >= 12:
+            continue
+        seen.add((hi, i))
+        small = obj_streams.shrink(hs[hi], i, j, bad_of) if len(fails) < 4 else None
+        h = small or dict(hs[hi], steps=hs[hi]["steps"][:i + 1])
+        fails.append({"input": {"stream": "objects", "history": h, "program": obj_streams.describe(h) if small else None,
+                                "reproducible_alone": small is not None},
+                      "observed": rep, "required": detail})
+    fails.sort(key=lambda f: len(str(f["input"]["history"])))
+    return evals, nontrivial, dist, fails, rule
 
 
 def correspond(ctx):
@@ -99,9 +188,12 @@ def correspond(ctx):
             dist["errors"] += 1
         dist["ops"][op] = dist["ops"].get(op, 0) + 1
         dist["word_len"][len(w)] = dist["word_len"].get(len(w), 0) + 1
+    ev2, nt2, dist2, fails2, rule2 = run_objects(ctx)
+    dist["objects"] = dist2
+    fails = fails[:40] + fails2
     return {
-        "evaluations": len(flat), "distinct_nontrivial": len(nontrivial),
-        "rule": rule + "; x {match, starts_with, nfa_match}; non-trivial = distinct (op, pattern, word) where the real engine reports a match",
+        "evaluations": len(flat) + ev2, "distinct_nontrivial": len(nontrivial) + len(nt2),
+        "rule": rule + "; x {match, starts_with, nfa_match}; non-trivial = distinct (op, pattern, word) where the real engine reports a match; " + rule2,
         "samples": [{"op": op, "pattern": rx.show(r), "word": w, "model": m, "impl": i} for (op, r, w), m, i in list(zip(flat, model, impl))[5000:5004] + list(zip(flat, model, impl))[-3:]],
         "exhaustive": True, "distribution": dist,
         "disagreements": dis[:50], "oracle_failures": fails[:50],
@@ -141,6 +233,14 @@ def tuple_ast(a):
 
 def replay(payload):
     inp = payload["input"]
+    if inp.get("stream") == "objects":
+        h = inp["history"]
+        print("\n".join(obj_streams.describe(h)))
+        rs = engine_real.run_history(h)
+        bad = obj_streams.judge([h], [rs], bad_of)
+        for (_, i, j, rep, kind, detail) in bad[:5]:
+            print("step %d call %d %s -> %s; %s" % (i, j, h["steps"][i]["calls"][j], rep, detail))
+        return not bad
     r = tuple_ast(inp["ast"])
     i = engine_real.real_engine(inp["op"], r, inp["word"])
     print("pattern %s word %s -> %s" % (rx.show(r), inp["word"], i))
